@@ -130,6 +130,68 @@ theorem C19_unguarded_would_stamp (s : State) (e : Nat) (ent : Ent) (via : Optio
   cases via <;> simp only [Option.getD] at hres <;>
     rcases hk with hk | hk <;> simp only [step, hal, hres, hk, hc, ht, hv] <;> cases s.auto <;> simp
 
+/-! ## which members hand a change on to another object
+
+A call stamps its own object (`outcomes`), or it invokes a stamping member of ANOTHER object, which
+then stamps that object by its own entry of the table: `section[name] = v` for a name in use is
+`property.values = v`; `dim.label = …` / `dim.unit = …` of a linked `RangeDimension` is the
+`DimensionLink` setter (the linked data object); the creating functions run setters on the entity
+they have just made.  `Member.foreign` lists, for every member, the stamping member names its body
+invokes on anything but the bare `self` (by name - an over-approximation).  The members that do so
+are exactly these; every other member of every class can write no stored time stamp but its own
+object's.  (`S.__setattr__`, the `setattr(section, name, value)` of the section builder, may reach
+any setter of a section.) -/
+
+def delegating : List (Cls × Mem × List Mem) := [
+  (.Block, .m_create_multi_tag, [.m_extents, .m_label, .m_unit]),
+  (.Block, .m_create_data_array, [.m_label, .m_unit]),
+  (.Block, .m_create_data_frame, [.m_values]),
+  (.DataArray, .m_append_sampled_dimension, [.m_label, .m_unit]),
+  (.DataArray, .m_append_range_dimension, [.m_label, .m_unit]),
+  (.RangeDimension, .m_label, [.m_label]),
+  (.RangeDimension, .m_unit, [.m_unit]),
+  (.Feature, .m_create_new, [.m_data, .m_link_type]),
+  (.MultiTag, .m_create_new, [.m_positions]),
+  (.Section, .m_create_property, [.m_values]),
+  (.Section, .m___setitem__, [.m_values]),
+  (.Tag, .m_create_new, [.m_position])]
+
+def stampingNames : List Mem :=
+  ((members.filter fun mb => mb.outcomes.any fun o => o.touch != .none).map (·.mem)).eraseDups
+
+def foreignOk : Bool :=
+  ((members.filter fun mb => !mb.foreign.isEmpty && mb.cls != .S).map
+      fun mb => (mb.cls, mb.mem, mb.foreign)) == delegating &&
+  members.all fun mb => mb.foreign.all fun f => stampingNames.contains f
+
+/-- the members (outside the section builder `S`) whose body invokes a stamping member of another
+object are exactly `delegating`, with exactly these names; every name listed anywhere is one that
+stamps in some class -/
+theorem C19_foreign_calls :
+    ((members.filter fun mb => !mb.foreign.isEmpty && mb.cls != .S).map
+      fun mb => (mb.cls, mb.mem, mb.foreign)) = delegating ∧
+    ∀ mb ∈ members, ∀ f ∈ mb.foreign, f ∈ stampingNames := by
+  have hall : foreignOk = true := by decide +kernel
+  simp only [foreignOk, Bool.and_eq_true, List.all_eq_true, beq_iff_eq] at hall
+  refine ⟨hall.1, fun mb hmb f hf => ?_⟩
+  exact List.contains_iff_mem.mp (hall.2 mb hmb f hf)
+
+/-- every other member invokes no stamping member of any other object -/
+theorem C19_no_foreign_elsewhere (mb : Member) (hmb : mb ∈ members) (hS : mb.cls ≠ .S)
+    (hnot : (mb.cls, mb.mem, mb.foreign) ∉ delegating) : mb.foreign = [] := by
+  cases hf : mb.foreign with
+  | nil => rfl
+  | cons a l =>
+    exfalso
+    apply hnot
+    rw [← C19_foreign_calls.1]
+    refine List.mem_map.mpr ⟨mb, List.mem_filter.mpr ⟨hmb, ?_⟩, rfl⟩
+    simp [hf, hS]
+
+example : (resolve .Section .m___setitem__).map (·.foreign) = some [.m_values] ∧
+    (resolve .DataFrame .m_append_column).map (·.foreign) = some [] ∧
+    (resolve .Group .m_definition).map (·.foreign) = some [] := by decide +kernel
+
 /-! ## creation time is fixed -/
 
 /-- over any history, the stored creation time of an existing entity is unchanged unless the
@@ -436,13 +498,13 @@ theorem C19_auto_on_local (s : State) (e : Nat) (ent : Ent) (m : Mem) (mb : Memb
     | some x => simp [Ne.symm hj]
 
 example : resolve Kind.property.cls .m_unit =
-      some ⟨.Property, .m_unit, .setter, [⟨.returns, .self⟩, ⟨.raises, .none⟩]⟩ ∧
+      some ⟨.Property, .m_unit, .setter, [⟨.returns, .self⟩, ⟨.raises, .none⟩], []⟩ ∧
     resolve Kind.multiTag.cls .m_definition =
-      some ⟨.Entity, .m_definition, .setter, [⟨.returns, .self⟩, ⟨.raises, .none⟩]⟩ ∧
+      some ⟨.Entity, .m_definition, .setter, [⟨.returns, .self⟩, ⟨.raises, .none⟩], []⟩ ∧
     resolve Kind.multiTag.cls .m_extents =
-      some ⟨.MultiTag, .m_extents, .setter, [⟨.returns, .self⟩, ⟨.raises, .none⟩]⟩ ∧
+      some ⟨.MultiTag, .m_extents, .setter, [⟨.returns, .self⟩, ⟨.raises, .none⟩], []⟩ ∧
     resolve Kind.feature.cls .m_data =
-      some ⟨.Feature, .m_data, .setter, [⟨.returns, .self⟩, ⟨.raises, .none⟩]⟩ := by
+      some ⟨.Feature, .m_data, .setter, [⟨.returns, .self⟩, ⟨.raises, .none⟩], []⟩ := by
   decide +kernel
 
 /-- when the model predicts the outcome of an accepted call (`Member.acceptedOutcome`, used by the
